@@ -112,11 +112,30 @@ def build_harness():
     return rc == 0, out
 
 
+def strip_coq_comments(t):
+    out, depth, i = [], 0, 0
+    while i < len(t):
+        if t.startswith("(*", i):
+            depth += 1
+            i += 2
+        elif t.startswith("*)", i) and depth > 0:
+            depth -= 1
+            i += 2
+        else:
+            if depth == 0:
+                out.append(t[i])
+            i += 1
+    return "".join(out)
+
+
+def theorem_names(path):
+    return re.findall(r"^\s*(?:Theorem|Corollary)\s+(\w+)", strip_coq_comments(open(path).read()), re.M)
+
+
 def check_props_file(pid, outdir):
     """Re-check props/<ID>.v on this run; returns (ok, n_theorems, assumptions list, raw)."""
     src = os.path.join(COQ, "props", pid + ".v")
-    text = open(src).read()
-    thms = re.findall(r"^\s*(?:Theorem|Corollary)\s+(\w+)", text, re.M)
+    thms = theorem_names(src)
     pc = os.path.join(outdir, "propscheck")
     os.makedirs(pc, exist_ok=True)
     rc, out = run(["coqc"] + QFLAGS + WFLAGS + ["-o", os.path.join(pc, pid + ".vo"), src], cwd=COQ, timeout=1200)
@@ -265,7 +284,7 @@ def main():
         if not okp:
             broken.append(("proof", "props/%s.v" % pid, praw[-1500:]))
     else:
-        thms = re.findall(r"^\s*(?:Theorem|Corollary)\s+(\w+)", open(os.path.join(COQ, "props", pid + ".v")).read(), re.M)
+        thms = theorem_names(os.path.join(COQ, "props", pid + ".v"))
     obligations = len(thms)
     discharged = obligations if okp else 0
 
